@@ -87,7 +87,7 @@ def make_case(seed, index, tier):
                 op.update(op='get')
                 if kind == 'filterstore':
                     op['filter'] = rng.choice(['any', 'any', 'even', 'odd', 'big', 'none',
-                                               'isint', 'isfloat'])
+                                               'isint', 'isfloat', 'mod3', 'text', 'maybe'])
             elif requests:
                 op.update(op=rng.choice(['cancel', 'interrupt']), target=rng.choice(requests))
             else:
@@ -148,6 +148,9 @@ FILTERS = {
     'any': lambda item: True, 'even': lambda item: item % 2 == 0,
     'odd': lambda item: item % 2 == 1, 'big': lambda item: item > 6, 'none': lambda item: False,
     'isint': lambda item: type(item) is int, 'isfloat': lambda item: type(item) is float,
+    # filters whose result is truthy / falsy, but not a bool
+    'mod3': lambda item: item % 3 * 2, 'text': lambda item: 'big' if item > 3 else '',
+    'maybe': lambda item: [item] if item % 2 else None,
 }
 
 
